@@ -590,7 +590,7 @@ pub struct SweepOut {
 pub fn sweep_family(seed: u64, f: u64, out: &mut SweepOut) {
     let mut rng = Rng::new(derive(seed, "c12sweep", f));
     let names: &[&str] = if f % 3 == 2 { gen::NAMES_ADV } else { gen::NAMES_PLAIN };
-    let p = DocParams { max_nodes: 6 + rng.below(20), max_depth: 1 + rng.below(4), names, max_width: 5 };
+    let p = DocParams { max_nodes: 6 + rng.below(20), max_depth: 1 + rng.below(4), names, max_width: 5, long_arrays: true };
     let doc = gen::gen_doc(&mut rng, &p);
     let mut names_in = vec![];
     gen::names_of(&doc, &mut names_in);
@@ -806,13 +806,14 @@ pub fn gen_corpus_with(seed: u64, n_fam: usize, q_per_fam: usize, adv: bool) -> 
     for f in 0..n_fam {
         let mut rng = Rng::new(derive(seed, "c12doc", f as u64));
         let names: &[&str] = if adv && f % 4 == 3 { gen::NAMES_ADV } else { gen::NAMES_PLAIN };
-        let p = DocParams { max_nodes: 8 + rng.below(23), max_depth: 1 + rng.below(4), names, max_width: 4 };
+        let p = DocParams { max_nodes: 8 + rng.below(23), max_depth: 1 + rng.below(4), names, max_width: 4, long_arrays: true };
         let mut base = gen::gen_doc(&mut rng, &p);
         let special = f % 2 == 0;
         if special {
             // the shape the extension functions, regex filters and root-dependent filters are selective on
             base = json!({"elems": [gen::scalar(&mut rng), "a", "ab", ["a", "b"], ["x"], {"a": "xay", "b": 1, "re": "x.y"}, 2, 0], "list": ["a", "b", 1], "x": {"a": "ab", "b": [1, 2, 3]}, "a": base,
-                "flag": rng.chance(1, 2), "lim": rng.range(0, 2), "re": *rng.pick(gen::PATTERNS)});
+                "flag": rng.chance(1, 2), "lim": rng.range(0, 2), "re": *rng.pick(gen::PATTERNS),
+                "long": (0..*rng.pick(&[9i64, 12, 17, 33, 40])).collect::<Vec<i64>>()});
         }
         let mut fam = vec![];
         let mut push = |v: &Value, contents: &mut Vec<String>| -> usize {
@@ -854,7 +855,7 @@ pub fn gen_corpus_with(seed: u64, n_fam: usize, q_per_fam: usize, adv: bool) -> 
         while fq.len() < q_per_fam && k < q_per_fam * 4 {
             k += 1;
             let tier = qrng.weighted(&[3, 4, 3]);
-            let q = match qrng.weighted(&[10, 2, 4, 2, if special { 8 } else { 0 }]) {
+            let q = match qrng.weighted(&[10, 2, 4, 2, if special { 8 } else { 0 }, if special { 4 } else { 0 }]) {
                 0 => g.query(&mut qrng, tier),
                 1 => {
                     // match / search twins with the same pattern
@@ -888,7 +889,8 @@ pub fn gen_corpus_with(seed: u64, n_fam: usize, q_per_fam: usize, adv: bool) -> 
                     let base_q = g.query(&mut qrng, tier);
                     gen::invalidate(&mut qrng, &base_q)
                 }
-                _ => g.root_dependent(&mut qrng),
+                4 => g.root_dependent(&mut qrng),
+                _ => g.index_jump(&mut qrng),
             };
             if queries.contains(&q) {
                 continue;
@@ -914,10 +916,14 @@ pub struct PlanMeta {
 }
 
 pub fn gen_plan(c: &Corpus, run_seed: u64) -> (Plan, PlanMeta) {
+    gen_plan_opt(c, run_seed, true)
+}
+
+pub fn gen_plan_opt(c: &Corpus, run_seed: u64, allow_stress: bool) -> (Plan, PlanMeta) {
     let mut rng = Rng::new(run_seed);
     // 3 % of the runs are long-lived processes: hundreds of operations over hundreds of distinct query
     // texts and member names, so that bounded tables and LRUs fill up and wrap while clients interleave
-    let stress = rng.chance(3, 100);
+    let stress = rng.chance(3, 100) && allow_stress;
     let repr: u8 = if stress { rng.below(2) as u8 } else if rng.chance(7, 10) { 0 } else { 1 + rng.below(8) as u8 };
     let n_slots = 1 + rng.below(4);
     let mut content_map: Vec<usize> = vec![];
